@@ -575,9 +575,6 @@ Starved(ev, i) ==
   LET s == SyncRec(ev, i)  q == QueueOf(W, Name(i)) IN
      /\ s.st = "waiting" /\ ~s.rh /\ s.preok /\ s.xok /\ ~s.held /\ Pt(i) <= StopPt
      /\ (QueueLimit(W, q) = 0 \/ QActiveIn(ev, q) < QueueLimit(W, q))
-QuiescentViol(ev) ==
-  Chk("C03_NoStarvation", (~ev.paused /\ ~Opt.stopreq) => \A i \in SyncIds(ev) : ~Starved(ev, i))
-QuiescentCov(ev) == Cov("C03_NoStarvation", ~ev.paused /\ ~Opt.stopreq /\ SyncIds(ev) # {})
 
 \* end of run: closure (only when nothing ended incomplete and the scheduler stopped by itself)
 Launched == {i \in DOMAIN hist : hist[i].n > 0}
@@ -608,6 +605,19 @@ BeyondStopAlt == {i \in W.tasks \X AllPoints(W) :
 NoStuck == \A i \in W.tasks \X AllPoints(W) :
              (ValidPoint(W, i[1], i[2]) /\ i[2] >= W.start /\ i[2] <= StopPt /\ Spawnable(i[1], i[2]))
                 => ReadyByGraph(W, i[1], i[2], done)
+\* a run that ends stalled / idle instead of shutting down: every instance the graph spawns (parentless, or
+\* child of a completed output) whose prerequisites are satisfied by the completed outputs and whose point lies
+\* within the runahead limit in force has been given a job (nothing holds it back: no job is active, no command
+\* interfered).  The known spawning findings of the closure clause are excepted here too.
+QuietClean(ev) == /\ ~Opt.manual /\ ~Opt.stopreq /\ ~Opt.stopmid /\ ~Opt.faults /\ ~ev.paused /\ ~W.hassuicide
+                  /\ env.downkind # "crash" /\ ev.rhlimit # NoPoint /\ ev.tasks_to_hold = {} /\ ev.hold_point = NoPoint
+                  /\ ~W.hasxt /\ DOMAIN W.expire = {}
+QuiescentViol(ev) ==
+  Chk("C03_NoStarvation", (~ev.paused /\ ~Opt.stopreq) => \A i \in SyncIds(ev) : ~Starved(ev, i))
+  \cup Chk("C01_NothingLeftBehind",
+         QuietClean(ev) => \A i \in Expected \ (Launched \cup BeyondStopAlt \cup NeverReached) : i[2] > ev.rhlimit)
+QuiescentCov(ev) == Cov("C03_NoStarvation", ~ev.paused /\ ~Opt.stopreq /\ SyncIds(ev) # {})
+                    \cup Cov("C01_NothingLeftBehind", QuietClean(ev))
 \* tasks that were in the in-memory pool when the process died and never came back
 LostForGood == env.lostAtCrash \ env.spawnedSinceBoot
 EndViol(ev) ==
